@@ -42,6 +42,29 @@ type fakeRedis struct {
 
 	scanCursors map[uint64]string // open SCAN cursors: last key handed out
 	nextCursor  uint64
+
+	// fault injection (kind rds): when failIn > 0 it counts data commands down; the command that
+	// brings it to zero fails with errConn before it has any effect
+	failIn  int
+	faulted bool
+}
+
+// errConn is what a command returns when the connection to the server broke.
+var errConn = errors.New("fakeredis: connection reset by peer")
+
+// faulty is called by every data command with the lock held.
+func (f *fakeRedis) faulty(cmd string) bool {
+	if f.failIn <= 0 {
+		return false
+	}
+	f.failIn--
+	if f.failIn > 0 {
+		return false
+	}
+	f.faulted = true
+	f.logf("%s -> (injected) connection error, the command has no effect", cmd)
+	f.count("injected_error")
+	return true
 }
 
 type fent struct {
@@ -134,6 +157,9 @@ func expiryOpt(d time.Duration) (opt string, relNs int64, keepTTL bool) {
 func (f *fakeRedis) Set(ctx context.Context, key string, value interface{}, expiration time.Duration) *redis.StatusCmd {
 	now := f.enter()
 	defer f.mu.Unlock()
+	if f.faulty("SET") {
+		return redis.NewStatusResult("", errConn)
+	}
 	opt, rel, keep := expiryOpt(expiration)
 	f.logf("SET %s %s%s   (expiration argument %v)", key, toStr(value), opt, expiration)
 	if keep {
@@ -158,6 +184,9 @@ func (f *fakeRedis) Set(ctx context.Context, key string, value interface{}, expi
 func (f *fakeRedis) SetNX(ctx context.Context, key string, value interface{}, expiration time.Duration) *redis.BoolCmd {
 	now := f.enter()
 	defer f.mu.Unlock()
+	if f.faulty("SETNX") {
+		return redis.NewBoolResult(false, errConn)
+	}
 	var rel int64
 	switch expiration {
 	case 0:
@@ -193,6 +222,9 @@ func (f *fakeRedis) SetNX(ctx context.Context, key string, value interface{}, ex
 func (f *fakeRedis) Get(ctx context.Context, key string) *redis.StringCmd {
 	now := f.enter()
 	defer f.mu.Unlock()
+	if f.faulty("GET") {
+		return redis.NewStringResult("", errConn)
+	}
 	f.logf("GET %s", key)
 	f.count("get")
 	e := f.live(key, now)
@@ -205,6 +237,9 @@ func (f *fakeRedis) Get(ctx context.Context, key string) *redis.StringCmd {
 func (f *fakeRedis) GetDel(ctx context.Context, key string) *redis.StringCmd {
 	now := f.enter()
 	defer f.mu.Unlock()
+	if f.faulty("GETDEL") {
+		return redis.NewStringResult("", errConn)
+	}
 	f.logf("GETDEL %s", key)
 	f.count("getdel")
 	e := f.live(key, now)
@@ -218,6 +253,9 @@ func (f *fakeRedis) GetDel(ctx context.Context, key string) *redis.StringCmd {
 func (f *fakeRedis) Expire(ctx context.Context, key string, expiration time.Duration) *redis.BoolCmd {
 	now := f.enter()
 	defer f.mu.Unlock()
+	if f.faulty("EXPIRE") {
+		return redis.NewBoolResult(false, errConn)
+	}
 	sec := formatSec(expiration)
 	f.logf("EXPIRE %s %d   (expiration argument %v)", key, sec, expiration)
 	f.count("expire")
@@ -236,6 +274,9 @@ func (f *fakeRedis) Expire(ctx context.Context, key string, expiration time.Dura
 func (f *fakeRedis) Del(ctx context.Context, keys ...string) *redis.IntCmd {
 	now := f.enter()
 	defer f.mu.Unlock()
+	if f.faulty("DEL") {
+		return redis.NewIntResult(0, errConn)
+	}
 	f.logf("DEL %s", strings.Join(keys, " "))
 	f.count("del")
 	var n int64
